@@ -18,7 +18,7 @@ COMPONENTS = dict(
     real=['udpcl.agent.Agent (both ends)', 'udpcl.config', 'cbor2', 'repo code at /repo/src working tree'],
     simulated=['GLib main contexts + monotonic / wall clocks', 'UDP sockets and network with drop / duplicate / reorder / delay (dsim.net)', 'D-Bus (dsim.dbusmod)'],
     stub=['portion (integer interval shim)', 'dtls (absent: DTLS never enabled)', 'yaml (import only)'])
-PROBES = ('xfer.segmented', 'xfer.unsegmented', 'dg.drop', 'dg.dup', 'dg.delay', 'foreign.multi_message', 'foreign.padding', 'foreign.twin_peers_same_ip', 'profile.clean', 'profile.reorder',
+PROBES = ('xfer.segmented', 'xfer.unsegmented', 'dg.drop', 'dg.dup', 'dg.delay', 'foreign.multi_message', 'foreign.padding', 'foreign.twin_peers_same_ip', 'foreign.transfer_id_reused', 'profile.clean', 'profile.reorder',
           'profile.dup', 'profile.drop', 'bundles.delivered', 'ecn.enabled')
 ASSUMPTIONS = ['"exactly one copy" is demanded only when every segment arrives exactly once (clean and reorder profiles); under duplication or loss only '
                '"never partial or corrupted"', 'MTUs below the fixed extension overhead are not generated (the sender cannot satisfy them)',
@@ -69,8 +69,16 @@ def gen(ch, tier):
         same_len = ch.coin('twin.same', 1, 2)
         twins.append(dict(tag=300 + 2 * ix, plen_a=40 + ch.pick('twin.pa', 300), plen_b=None if same_len else 40 + ch.pick('twin.pb', 300),
                           xfer_id=10 * ix + ch.pick('twin.id', 3), npieces=2 + ch.pick('twin.np', 4), order=ch.pick('twin.order', 1 << 16), t=1000 * ch.pick('twin.t', 3000)))
+    reuse = []
+    if profile in ('clean', 'reorder') and ch.coin('reuse', 1, 2):
+        # one peer uses a transfer id again for a new bundle after the first transfer completed (a restarted sender counts from 0
+        # again); only on links that lose and repeat nothing, and later than any datagram of the first transfer can still be under way
+        same_len = ch.coin('reuse.same', 1, 2)
+        reuse.append(dict(tag=400, plen_a=40 + ch.pick('reuse.pa', 300), plen_b=None if same_len else 40 + ch.pick('reuse.pb', 300),
+                          xfer_id=50 + ch.pick('reuse.id', 3), npieces=2 + ch.pick('reuse.np', 4), order=ch.pick('reuse.order', 1 << 16),
+                          t=1000 * ch.pick('reuse.t', 2000), gap=1000 * ch.choice('reuse.gap', (700, 1500))))
     ecn = ch.coin('ecn', 1, 4)
-    return dict(scenario='udpcl_pair', kind='udpcl', profile=profile, net=net, mtu=mtu, sends=sends, foreign=foreign, twins=twins, ecn=ecn,
+    return dict(scenario='udpcl_pair', kind='udpcl', profile=profile, net=net, mtu=mtu, sends=sends, foreign=foreign, twins=twins, reuse=reuse, ecn=ecn,
                 cfg={'*': dict(mtu_default=mtu, node_id='dtn://u/', ecn_init=ecn, ecn_feedback=ecn)})
 
 
@@ -166,6 +174,25 @@ def _drive(run, plan, har):
         foreign_complete['U2'].extend([body_a, body_b])
         stats['foreign.twin_peers_same_ip'] = 1
 
+    def do_reuse(item, second=False):
+        ''' One peer, one transfer id, two bundles one after the other. '''
+        import random as _random
+        if not second:
+            body = bundle_bytes(item['tag'], item['plen_a'])
+        else:
+            body = bundle_bytes(item['tag'] + 1, item['plen_a'] if item['plen_b'] is None else item['plen_b'])
+        step = max(1, -(-len(body) // item['npieces']))
+        segs = refudp.make_segments(item['xfer_id'], body, list(range(step, len(body), step)))
+        _random.Random(item['order'] + int(second)).shuffle(segs)
+        for seg in segs:
+            with wld.as_node(har.xnode):
+                har.xsock.sendto(seg, (dgram_pair.UDP_ADDR['U2'], 4556))
+        foreign_complete['U2'].append(body)
+        if not second:
+            wld.after(item['gap'], do_reuse, item, True)
+        else:
+            stats['foreign.transfer_id_reused'] = 1
+
     if plan.get('twins'):
         from dsim.net import DgramSock
         with wld.as_node(har.xnode):
@@ -177,6 +204,8 @@ def _drive(run, plan, har):
         wld.at(item['t'], do_foreign, item)
     for item in plan.get('twins', ()):
         wld.at(item['t'], do_twins, item)
+    for item in plan.get('reuse', ()):
+        wld.at(item['t'], do_reuse, item)
     har.run_until(4 * dgram_pair.SEC)
     har.settle(window_us=3 * dgram_pair.SEC)
     got = {side: har.user_pop_all(side) for side in ('U1', 'U2')}
